@@ -3,7 +3,8 @@
    Vocabulary (Model/FastlogOps.v): [wf l] the buffer has 2048 bytes; [fits l t] index + |t| <= 2048;
    [appended l t r] the call r returned a line whose text is the text of l followed by exactly t;
    [fld name t] = " name=" ++ t.  Reference renderings: Spec/TextSpec.v. *)
-From PV Require Import Base.Prelude Model.Fastlog Model.FastlogOps Spec.TextSpec Proofs.Fastlog.
+From PV Require Import Base.Prelude Model.Fastlog Model.FastlogOps Model.FastlogAsFound Spec.TextSpec
+  Proofs.Fastlog Proofs.FastlogAsFound.
 Open Scope N_scope.
 
 (* Uint8 / Uint16 / Uint32 print strconv's decimal text *)
@@ -65,3 +66,39 @@ Theorem C20_field_text : forall l name t,
   wf l -> fits l (fld name t) -> appended l (fld name t) (f_text l name t).
 Proof. exact field_text. Qed.
 Print Assumptions C20_field_text.
+
+(* ---------------------------------------------------------------------------------------------
+   The code AS FOUND (/repo 040c128) violated the property in five ways; each was reproduced on
+   the real code, recorded, and repaired by a fix: commit (known_findings.txt "fixed:" lines,
+   FIXLOG.md).  The refutations stay checked on the as-found functions (Model/FastlogAsFound.v). *)
+
+Theorem C20_asfound_ip6_run2_refuted :
+  exists l name ip, line_ok l /\ bytes_ok ip /\ List.length ip = 16%nat /\
+    fits l (fld name (netip_text ip)) /\
+    is_ok (f_ipslice_af l name (Some ip)) = true /\
+    text_or_nil (f_ipslice_af l name (Some ip)) <> text_of l ++ fld name (netip_text ip).
+Proof. exact asfound_ip6_run2_refuted. Qed.
+Print Assumptions C20_asfound_ip6_run2_refuted.
+
+Theorem C20_asfound_ip6_exact_fit_refuted :
+  exists l name ip, line_ok l /\ bytes_ok ip /\ List.length ip = 16%nat /\
+    fits l (fld name (netip_text ip)) /\ f_ipslice_af l name (Some ip) = Panic.
+Proof. exact asfound_ip6_exact_fit_refuted. Qed.
+Print Assumptions C20_asfound_ip6_exact_fit_refuted.
+
+Theorem C20_asfound_iparray_ip4_return_refuted :
+  exists l name vs, line_ok l /\ op_fits (index l) (OIPArr name vs) = true /\
+    text_or_nil (f_ip_array_af l name vs) = text_of l ++ [32; 97; 61; 91; 49; 46; 50; 46; 51; 46; 52] /\
+    text_or_nil (f_ip_array_af l name vs) <> text_of l ++ spec_text (OIPArr name vs).
+Proof. exact asfound_iparray_ip4_return_refuted. Qed.
+Print Assumptions C20_asfound_iparray_ip4_return_refuted.
+
+Theorem C20_asfound_iparray_room_refuted :
+  exists l name vs, line_ok l /\ f_ip_array_af l name vs = Panic.
+Proof. exact asfound_iparray_room_refuted. Qed.
+Print Assumptions C20_asfound_iparray_room_refuted.
+
+Theorem C20_asfound_bytearray_negative_bound_refuted :
+  exists l name v, line_ok l /\ f_byte_array_af l name v = Panic.
+Proof. exact asfound_bytearray_negative_bound_refuted. Qed.
+Print Assumptions C20_asfound_bytearray_negative_bound_refuted.
